@@ -72,6 +72,25 @@ def rand_multi_history(rng, thorough):
     return h
 
 
+def rand_burst_history(rng):
+    """policy mode with very many sequences open at the same time (state-size limits of the store): a few tracked sequences
+    start, 10^4..2*10^4 others are opened, the tracked ones go on failing"""
+    A = rng.choice([3, 3, 4, 5])
+    seqs = ["s1", "s2", "s3"]
+    ranges = rng.choice(RANGE_POOL)
+    hot = [st for st in ST_POOL if in_cond(ranges, st)]
+    h = [{"ev": "reset", "mode": "policy", "A": A, "cd": rng.choice([0, 1]), "mult": 1, "ranges": ranges, "seqs": seqs}]
+    k = rng.randint(0, 3)
+    for s in seqs[:k]:
+        h.append({"ev": "resp", "s": s, "st": rng.choice(hot), "new": True})
+    h.append({"ev": "burst", "n": rng.randint(10000, 20000), "st": rng.choice(hot)})
+    for s in seqs[k:]:
+        h.append({"ev": "resp", "s": s, "st": rng.choice(hot), "new": True})
+    for _ in range(rng.randint(8, 16)):
+        h.append({"ev": "resp", "s": rng.choice(seqs), "st": rng.choice(hot), "new": False})
+    return h
+
+
 def script_of(hist):
     return [{k: v for k, v in e.items() if k not in ("out", "ra", "refused")} for e in hist]
 
@@ -279,6 +298,8 @@ def run(ctx):
     def pick(i, j):
         if j % 4 == 3:
             return rand_multi_history(ctx.rng, T)
+        if j == 0 and (T or i < 3):
+            return rand_burst_history(ctx.rng)
         return rand_history(ctx.rng, "policy" if (i + j) % 2 == 0 else "flows", T)
     scripts = [{"histories": [pick(i, j) for j in range(nh)]} for i in range(nscripts)]
     traces = execute(ctx, binary, scripts, "rand")
